@@ -151,3 +151,964 @@ Proof.
     + now apply negb_true_iff in H2.
     + now apply negb_true_iff.
 Qed.
+
+(* ------------------------------------------------------------------------------------------------ *)
+(* Part 1: the loop of Match (both matchers) is the generic scan                                      *)
+(* ------------------------------------------------------------------------------------------------ *)
+
+Definition R := N.                            (* the upstream byte of the deciding match-set *)
+Definition atom := (N * mset)%type.           (* array index, match-set *)
+
+Definition unres (r : res bool) : bool := match r with Ok g => g | Err _ => false end.
+Definition res_of (o : option (R * bool)) : res N :=
+  match o with Some (r, _) => Ok r | None => Err E_NO_HIT end.
+
+Fixpoint tag (i : N) (ms : list mset) : list atom :=
+  match ms with [] => [] | m :: r => (i, m) :: tag (N.succ i) r end.
+
+Lemma tag_app i l1 l2 : tag i (l1 ++ l2) = tag i l1 ++ tag (i + N.of_nat (List.length l1)) l2.
+Proof.
+  revert i. induction l1 as [|m l1 IH]; intros i; cbn [tag app List.length].
+  - now rewrite N.add_0_r.
+  - rewrite IH. replace (N.succ i + N.of_nat (List.length l1)) with (i + N.of_nat (S (List.length l1))) by lia.
+    reflexivity.
+Qed.
+Lemma tag_length i l : List.length (tag i l) = List.length l.
+Proof. revert i. induction l; intros; cbn; auto. Qed.
+Lemma tag_nonempty i seg : seg <> [] -> tag i seg <> [].
+Proof. destruct seg; [congruence|discriminate]. Qed.
+Lemma tag_nth : forall l i k x, nth_error (tag i l) k = Some x -> fst x = i + N.of_nat k /\ nth_error l k = Some (snd x).
+Proof.
+  induction l as [|m l IH]; intros i k x H; destruct k; cbn in H; try discriminate.
+  - inversion H; subst. cbn. split; [lia|reflexivity].
+  - destruct (IH _ _ _ H) as [H1 H2]. split; [lia|exact H2].
+Qed.
+Lemma tag_in : forall l i k m, nth_error l k = Some m -> In (i + N.of_nat k, m) (tag i l).
+Proof.
+  induction l as [|m' l IH]; intros i k m Hk; destruct k; cbn in Hk; try discriminate.
+  - inversion Hk; subst. left. f_equal. lia.
+  - right. specialize (IH (N.succ i) k m Hk). replace (N.succ i + N.of_nat k) with (i + N.of_nat (S k)) in IH by lia. exact IH.
+Qed.
+
+Section Side.
+Variable sd : side.
+
+Definition tgt_of_id (up : N) : RuleScan.tgt R :=
+  if up =? s_or sd then RuleScan.TOr
+  else if up =? s_and sd then RuleScan.TAnd
+  else RuleScan.TOut up false.
+Definition tgt_of (m : mset) : RuleScan.tgt R := tgt_of_id (m_up m).
+Definition abs_atom (x : atom) : RuleScan.mset atom R := RuleScan.MS x (m_not (snd x)) (tgt_of (snd x)).
+Definition abs_arr (i : N) (ms : list mset) : list (RuleScan.mset atom R) := map abs_atom (tag i ms).
+
+Lemma abs_arr_app i l1 l2 : abs_arr i (l1 ++ l2) = abs_arr i l1 ++ abs_arr (i + N.of_nat (List.length l1)) l2.
+Proof. unfold abs_arr. now rewrite tag_app, map_app. Qed.
+
+Lemma mask_small : forall o, o < 256 ->
+  (N.land o (s_mask sd) =? s_mask sd) = ((o =? s_or sd) || (o =? s_and sd)).
+Proof.
+  assert (H : forallb (fun o => Bool.eqb (N.land o (s_mask sd) =? s_mask sd) ((o =? s_or sd) || (o =? s_and sd)))
+                      (map N.of_nat (seq 0 256)) = true) by (destruct sd; vm_compute; reflexivity).
+  rewrite forallb_forall in H. intros o Ho.
+  specialize (H o). apply eqb_prop. apply H.
+  apply in_map_iff. exists (N.to_nat o). split; [lia|]. apply in_seq. lia.
+Qed.
+
+Section Loop.
+Variable ipsets : list (list prefix).
+Variable a : margs.
+Variable bm : option (list N).
+
+Definition evx (i : N) (x : atom) : bool := unres (eval_mset sd ipsets a bm i (snd x)).
+Definition entry_fine (i : N) (m : mset) : Prop :=
+  m_up m < 256 /\ exists g, eval_mset sd ipsets a bm i m = Ok g.
+
+Lemma match_loop_scan : forall ms i good bad,
+  (forall k m, nth_error ms k = Some m -> entry_fine (i + N.of_nat k) m) ->
+  match_loop sd ipsets a bm ms i good bad = res_of (RuleScan.scan atom R evx i (abs_arr i ms) good bad false).
+Proof.
+  induction ms as [|m ms IH]; intros i good bad H; [reflexivity|].
+  assert (Hm : entry_fine i m) by (specialize (H 0%nat m eq_refl); now rewrite N.add_0_r in H).
+  assert (H' : forall k m', nth_error ms k = Some m' -> entry_fine (N.succ i + N.of_nat k) m').
+  { intros k m' Hk. specialize (H (S k) m' Hk).
+    replace (N.succ i + N.of_nat k) with (i + N.of_nat (S k)) by lia. exact H. }
+  destruct Hm as [Ho [g Hg]].
+  cbn [match_loop abs_arr tag map abs_atom RuleScan.scan RuleScan.ma RuleScan.mneg RuleScan.mt snd].
+  replace (i + 1) with (N.succ i) by lia.
+  assert (Hev : (if bad || good then Ok good else eval_mset sd ipsets a bm i m)
+                = Ok (if bad || good then good else evx i (i, m))).
+  { destruct (bad || good); [reflexivity|]. unfold evx. cbn [snd]. now rewrite Hg. }
+  rewrite Hev. clear Hev.
+  set (g1 := if bad || good then good else evx i (i, m)).
+  rewrite (mask_small _ Ho).
+  unfold tgt_of, tgt_of_id. fold (abs_arr (N.succ i) ms).
+  destruct (m_up m =? s_or sd) eqn:E1.
+  - cbn [negb orb]. now rewrite IH.
+  - cbn [negb orb]. destruct (m_up m =? s_and sd) eqn:E2.
+    + cbn [negb]. rewrite IH by exact H'. unfold RuleScan.upd_bad. reflexivity.
+    + cbn [negb]. unfold RuleScan.upd_bad.
+      destruct (if Bool.eqb g1 (m_not m) then true else bad); cbn [negb]; [now rewrite IH | reflexivity].
+Qed.
+End Loop.
+
+(* --- chains of match-sets: the array layout of one condition --- *)
+Inductive chain (neg : bool) (oid : N) : list mset -> Prop :=
+| chain_last m : m_not m = neg -> m_up m = oid -> chain neg oid [m]
+| chain_cons m rest : m_not m = neg -> m_up m = s_or sd -> chain neg oid rest -> chain neg oid (m :: rest).
+
+Lemma chain_nonempty neg oid seg : chain neg oid seg -> seg <> [].
+Proof. intros H; inversion H; discriminate. Qed.
+
+Lemma chain_app neg oid s1 s2 : chain neg (s_or sd) s1 -> chain neg oid s2 -> chain neg oid (s1 ++ s2).
+Proof.
+  induction 1 as [m Hh Ho|m rest Hh Ho Hc IH]; intros H2; cbn [app].
+  - now apply chain_cons.
+  - apply chain_cons; auto.
+Qed.
+
+Lemma s_or_refl : (s_or sd =? s_or sd) = true.
+Proof. apply N.eqb_refl. Qed.
+
+Lemma chain_lower neg oid seg :
+  chain neg oid seg -> forall i,
+  abs_arr i seg = RuleScan.lower_atoms atom R neg (tgt_of_id oid) (tag i seg).
+Proof.
+  induction 1 as [m Hn Ho|m rest Hn Ho Hc IH]; intros i.
+  - cbn. unfold abs_atom, tgt_of. cbn [snd]. now rewrite Hn, Ho.
+  - unfold abs_arr in *. cbn [tag map RuleScan.lower_atoms].
+    destruct rest as [|m' rest']; [inversion Hc|].
+    cbn [tag]. cbn [tag] in IH. rewrite <- IH. cbn [map].
+    unfold abs_atom at 1, tgt_of, tgt_of_id. cbn [snd]. rewrite Hn, Ho, s_or_refl. reflexivity.
+Qed.
+
+Lemma s_or_small : s_or sd < 256.
+Proof. destruct sd; reflexivity. Qed.
+
+Lemma chain_up_small neg oid seg : chain neg oid seg -> oid < 256 -> Forall (fun m => m_up m < 256) seg.
+Proof.
+  induction 1 as [m _ Ho|m rest _ Ho _ IH]; intros Hlt; constructor; auto.
+  - now rewrite Ho.
+  - rewrite Ho. apply s_or_small.
+Qed.
+End Side.
+
+(* ------------------------------------------------------------------------------------------------ *)
+(* Part 2: names, groupParamValuesByKey                                                               *)
+(* ------------------------------------------------------------------------------------------------ *)
+
+Lemma index_of_none : forall l s i, existsb (String.eqb s) l = false -> index_of l s i = None.
+Proof.
+  induction l as [|t r IH]; intros s i H; [reflexivity|]. cbn [existsb index_of] in *.
+  apply orb_false_iff in H. destruct H as [H1 H2]. rewrite String.eqb_sym in H1. rewrite H1. now apply IH.
+Qed.
+
+Lemma name2id_go_spec : forall l s i acc, nodup_str l = true ->
+  name2id_go l s i acc = match index_of l s i with Some k => Some k | None => acc end.
+Proof.
+  induction l as [|t r IH]; intros s i acc H; [reflexivity|]. cbn [nodup_str] in H.
+  apply andb_true_iff in H. destruct H as [H1 H2]. apply negb_true_iff in H1.
+  cbn [name2id_go index_of]. destruct (String.eqb t s) eqn:E.
+  - apply String.eqb_eq in E. subst t. rewrite IH by exact H2. now rewrite (index_of_none r s (i + 1) H1).
+  - now rewrite IH by exact H2.
+Qed.
+
+Lemma index_of_bound : forall l s i k, index_of l s i = Some k -> i <= k < i + N.of_nat (List.length l).
+Proof.
+  induction l as [|t r IH]; intros s i k H; [discriminate|]. cbn [index_of List.length] in *.
+  destruct (String.eqb t s).
+  - inversion H; subst. lia.
+  - apply IH in H. lia.
+Qed.
+
+Definition groups_sound (params : list (dkind * string)) (gsx : list (dkind * list string)) : Prop :=
+  forall k vs, In (k, vs) gsx -> vs <> [] /\ forall x, In x vs -> In (k, x) params.
+Definition groups_complete (params : list (dkind * string)) (gsx : list (dkind * list string)) : Prop :=
+  forall k x, In (k, x) params -> exists vs, In (k, vs) gsx /\ In x vs.
+
+Lemma dkind_eqb_eq a b : dkind_eqb a b = true -> a = b.
+Proof. destruct a, b; cbn; congruence. Qed.
+Lemma dkind_eqb_refl a : dkind_eqb a a = true.
+Proof. destruct a; reflexivity. Qed.
+
+Lemma add_to_group_sound key v gsx k vs :
+  (forall k vs, In (k, vs) gsx -> vs <> []) ->
+  In (k, vs) (add_to_group key v gsx) ->
+  vs <> [] /\ forall x, In x vs -> (k = key /\ x = v) \/ exists vs0, In (k, vs0) gsx /\ In x vs0.
+Proof.
+  induction gsx as [|[k0 vs0] rest IH]; intros Hne Hin; cbn [add_to_group] in Hin.
+  - destruct Hin as [E|[]]. inversion E; subst. split; [discriminate|].
+    intros x [->|[]]. now left.
+  - destruct (dkind_eqb k0 key) eqn:E.
+    + apply dkind_eqb_eq in E. subst k0. destruct Hin as [E|Hin].
+      * inversion E; subst. split.
+        { intro H. apply app_eq_nil in H. destruct H; discriminate. }
+        intros x Hx. apply in_app_or in Hx. destruct Hx as [Hx|[->|[]]]; [right|now left].
+        exists vs0. split; [now left|assumption].
+      * split; [apply (Hne k vs); now right|]. intros x Hx. right. exists vs. split; [now right|assumption].
+    + destruct Hin as [E'|Hin].
+      * inversion E'; subst. split; [apply (Hne k vs); now left|]. intros x Hx. right. exists vs. split; [now left|assumption].
+      * destruct (IH (fun k vs H => Hne k vs (or_intror H)) Hin) as [H1 H2]. split; [assumption|].
+        intros x Hx. destruct (H2 x Hx) as [H|[vs1 [Ha Hb]]]; [now left|right].
+        exists vs1. split; [now right|assumption].
+Qed.
+
+Lemma add_to_group_new key v gsx : exists vs, In (key, vs) (add_to_group key v gsx) /\ In v vs.
+Proof.
+  induction gsx as [|[k0 vs0] rest IH]; cbn [add_to_group].
+  - exists [v]. split; now left.
+  - destruct (dkind_eqb k0 key) eqn:E.
+    + apply dkind_eqb_eq in E. subst. exists (vs0 ++ [v]). split; [now left|]. apply in_or_app. right. now left.
+    + destruct IH as [vs [Ha Hb]]. exists vs. split; [now right|assumption].
+Qed.
+
+Lemma add_to_group_old key v gsx k vs0 x :
+  In (k, vs0) gsx -> In x vs0 -> exists vs, In (k, vs) (add_to_group key v gsx) /\ In x vs.
+Proof.
+  induction gsx as [|[k1 vs1] rest IH]; intros Hin Hx; [destruct Hin|]. cbn [add_to_group].
+  destruct (dkind_eqb k1 key) eqn:E.
+  - destruct Hin as [E'|Hin].
+    + inversion E'; subst. exists (vs0 ++ [v]). split; [now left|]. apply in_or_app. now left.
+    + exists vs0. split; [now right|assumption].
+  - destruct Hin as [E'|Hin].
+    + inversion E'; subst. exists vs0. split; [now left|assumption].
+    + destruct (IH Hin Hx) as [vs [Ha Hb]]. exists vs. split; [now right|assumption].
+Qed.
+
+Lemma group_by_key_gen : forall params done acc,
+  groups_sound done acc -> groups_complete done acc ->
+  groups_sound (done ++ params) (fold_left (fun gsx kv => add_to_group (fst kv) (snd kv) gsx) params acc) /\
+  groups_complete (done ++ params) (fold_left (fun gsx kv => add_to_group (fst kv) (snd kv) gsx) params acc).
+Proof.
+  induction params as [|[key v] params IH]; intros done acc Hs Hc.
+  - rewrite app_nil_r. now split.
+  - cbn [fold_left fst snd].
+    replace (done ++ (key, v) :: params) with ((done ++ [(key, v)]) ++ params) by (now rewrite <- app_assoc).
+    apply IH.
+    + intros k vs Hin.
+      destruct (add_to_group_sound key v acc k vs (fun k vs H => proj1 (Hs k vs H)) Hin) as [H1 H2].
+      split; [assumption|]. intros x Hx. apply in_or_app.
+      destruct (H2 x Hx) as [[-> ->]|[vs0 [Ha Hb]]]; [right; now left|left].
+      now apply (proj2 (Hs k vs0 Ha)).
+    + intros k x Hin. apply in_app_or in Hin. destruct Hin as [Hin|[E|[]]].
+      * destruct (Hc k x Hin) as [vs0 [Ha Hb]]. now apply (add_to_group_old key v acc k vs0 x).
+      * inversion E; subst. apply add_to_group_new.
+Qed.
+
+Lemma group_by_key_ok params :
+  groups_sound params (group_by_key params) /\ groups_complete params (group_by_key params).
+Proof.
+  unfold group_by_key. apply (group_by_key_gen params [] []).
+  - intros k vs [].
+  - intros k x [].
+Qed.
+
+Lemma group_by_key_nonempty params : params <> [] -> group_by_key params <> [].
+Proof.
+  intros Hne. destruct params as [|[k x] rest]; [congruence|].
+  destruct (group_by_key_ok ((k, x) :: rest)) as [_ Hc].
+  destruct (Hc k x (or_introl eq_refl)) as [vs [Hin _]]. intro E. rewrite E in Hin. destruct Hin.
+Qed.
+
+Lemma groups_existsb (f : dkind -> string -> bool) params :
+  existsb (fun g => existsb (f (fst g)) (snd g)) (group_by_key params) = existsb (fun kv => f (fst kv) (snd kv)) params.
+Proof.
+  destruct (group_by_key_ok params) as [Hs Hc].
+  apply eq_true_iff_eq. rewrite !existsb_exists. split.
+  - intros [[k vs] [Hin Hex]]. cbn [fst snd] in Hex. apply existsb_exists in Hex. destruct Hex as [x [Hx Hfx]].
+    exists (k, x). split; [|exact Hfx]. now apply (proj2 (Hs k vs Hin)).
+  - intros [[k x] [Hin Hfx]]. cbn [fst snd] in Hfx. destruct (Hc k x Hin) as [vs [Hg Hx]].
+    exists (k, vs). split; [exact Hg|]. cbn [fst snd]. apply existsb_exists. now exists x.
+Qed.
+
+(* ------------------------------------------------------------------------------------------------ *)
+(* Part 3: what every builder callback emits                                                          *)
+(* ------------------------------------------------------------------------------------------------ *)
+Section Emit.
+Variable sd : side.
+Variable ups : list string.
+Hypothesis Hups : wf_upstreams ups = true.
+Variable x : ctx.
+Variable bm : option (list N).
+Let a : margs := {| a_qtype := q_type (x_q x); a_ips := x_ips x; a_from := from_index (x_from x) |}.
+
+Definition bmr (i : N) : option bool := match bm with None => Some false | Some w => bm_read w i end.
+Definition dom_holds (k : dkind) (vals : list string) : bool :=
+  existsb (fun s => domain_holds k s (norm_name (q_name (x_q x))) (q_regex_hits (x_q x))) vals.
+(* the interface to C11: bit i of the bitmap is readable and is the meaning of the domain set registered for index i *)
+Definition dom_agree (F : builder) : Prop :=
+  forall ds, In ds (b_domsets F) -> bmr (ds_index ds) = Some (dom_holds (ds_key ds) (ds_domains ds)).
+Definition ext (b F : builder) : Prop :=
+  (exists t, b_ipsets F = b_ipsets b ++ t) /\ (exists d, b_domsets F = b_domsets b ++ d).
+
+Lemma ext_refl b : ext b b.
+Proof. split; exists []; now rewrite app_nil_r. Qed.
+Lemma ext_trans b1 b2 b3 : ext b1 b2 -> ext b2 b3 -> ext b1 b3.
+Proof.
+  intros [[t1 H1] [d1 H1']] [[t2 H2] [d2 H2']]. split.
+  - exists (t1 ++ t2). now rewrite H2, H1, app_assoc.
+  - exists (d1 ++ d2). now rewrite H2', H1', app_assoc.
+Qed.
+Lemma ext_ip b F i ps : ext b F -> nth_error (b_ipsets b) i = Some ps -> nth_error (b_ipsets F) i = Some ps.
+Proof.
+  intros [[t Ht] _] H. rewrite Ht, nth_error_app1; [assumption|]. apply nth_error_Some. congruence.
+Qed.
+Lemma ext_dom b F y : ext b F -> In y (b_domsets b) -> In y (b_domsets F).
+Proof. intros [_ [d Hd]] H. rewrite Hd. apply in_or_app. now left. Qed.
+
+Definition semx (F : builder) (y : atom) : bool := unres (eval_mset sd (b_ipsets F) a bm (fst y) (snd y)).
+Definition fine (F : builder) (y : atom) : Prop := exists g, eval_mset sd (b_ipsets F) a bm (fst y) (snd y) = Ok g.
+
+Definition emitted (b b' : builder) (seg : list mset) (neg : bool) (oid : N) (s : bool) : Prop :=
+  b_rules b' = b_rules b ++ seg /\ ext b b' /\ chain sd neg oid seg /\
+  forall F, ext b' F -> dom_agree F ->
+    Forall (fine F) (tag (N.of_nat (List.length (b_rules b))) seg) /\
+    existsb (semx F) (tag (N.of_nat (List.length (b_rules b))) seg) = s.
+
+Lemma append_rule_ext b m : ext b (append_rule b m).
+Proof. split; exists []; cbn; now rewrite app_nil_r. Qed.
+
+Lemma emitted_single b b1 m neg oid s :
+  b_rules b1 = b_rules b -> ext b b1 -> m_not m = neg -> m_up m = oid ->
+  (forall F, ext (append_rule b1 m) F -> dom_agree F ->
+     eval_mset sd (b_ipsets F) a bm (N.of_nat (List.length (b_rules b))) m = Ok s) ->
+  emitted b (append_rule b1 m) [m] neg oid s.
+Proof.
+  intros Hr He Hn Ho Hs. unfold emitted. cbn [append_rule b_rules]. rewrite Hr.
+  split; [reflexivity|]. split; [exact (ext_trans _ _ _ He (append_rule_ext b1 m))|].
+  split; [now apply chain_last|].
+  intros F HF Hd. specialize (Hs F HF Hd). cbn [tag existsb]. unfold semx, fine. cbn [fst snd]. rewrite Hs.
+  split; [constructor; [now exists s|constructor]|]. cbn [unres]. now rewrite orb_false_r.
+Qed.
+
+Lemma emitted_app b b1 b' s1 s2 neg oid x1 x2 :
+  emitted b b1 s1 neg (s_or sd) x1 -> emitted b1 b' s2 neg oid x2 ->
+  emitted b b' (s1 ++ s2) neg oid (x1 || x2).
+Proof.
+  intros [Hr1 [He1 [Hc1 Hs1]]] [Hr2 [He2 [Hc2 Hs2]]]. unfold emitted.
+  split; [now rewrite Hr2, Hr1, app_assoc|]. split; [now apply (ext_trans b b1 b')|].
+  split; [now apply chain_app|].
+  intros F HF Hd. destruct (Hs1 F (ext_trans _ _ _ He2 HF) Hd) as [Hf1 Hx1]. destruct (Hs2 F HF Hd) as [Hf2 Hx2].
+  rewrite Hr1, app_length, Nat2N.inj_add in Hf2, Hx2. rewrite tag_app.
+  split; [apply Forall_app; now split|]. now rewrite existsb_app, Hx1, Hx2.
+Qed.
+
+Lemma or_id : upstream_to_id sd ups "<OR>" = Ok (s_or sd).
+Proof. destruct sd; reflexivity. Qed.
+Lemma and_id : upstream_to_id sd ups "<AND>" = Ok (s_and sd).
+Proof. destruct sd; reflexivity. Qed.
+
+(* --- qname: one match-set per key group --- *)
+Lemma add_qname_emitted b neg key vals upname oid :
+  upstream_to_id sd ups upname = Ok oid ->
+  exists b', add_qname sd ups b neg key vals upname = Ok b' /\
+    emitted b b' [{| m_type := MatchType_DomainSet; m_value := 0; m_not := neg; m_up := oid |}] neg oid (dom_holds key vals).
+Proof.
+  intros Hoid. unfold add_qname. rewrite Hoid. eexists. split; [reflexivity|].
+  apply emitted_single; [reflexivity| |reflexivity|reflexivity|].
+  - split; cbn; [exists []; now rewrite app_nil_r|eexists; reflexivity].
+  - intros F HF Hd. unfold eval_mset. cbn [m_type]. rewrite N.eqb_refl.
+    assert (Hin : In {| ds_key := key; ds_index := N.of_nat (List.length (b_rules b)); ds_domains := vals |} (b_domsets F)).
+    { apply (ext_dom _ F _ HF). cbn [append_rule b_domsets]. apply in_or_app. right. now left. }
+    specialize (Hd _ Hin). cbn [ds_index ds_key ds_domains] in Hd. unfold bmr in Hd.
+    destruct bm as [w|].
+    + now rewrite Hd.
+    + now inversion Hd.
+Qed.
+
+(* --- qtype: one match-set per value --- *)
+Lemma add_qtype_emitted : forall vals b neg upname oid,
+  vals <> [] -> upstream_to_id sd ups upname = Ok oid ->
+  exists b' seg, add_qtype sd ups b neg vals upname = Ok b' /\
+    emitted b b' seg neg oid (existsb (fun t => q_type (x_q x) =? t) vals).
+Proof.
+  induction vals as [|v vals IH]; intros b neg upname oid Hne Hoid; [congruence|].
+  cbn [add_qtype existsb].
+  set (mk := fun o => {| m_type := MatchType_QType; m_value := v; m_not := neg; m_up := o |}).
+  assert (Hev : forall o F i, eval_mset sd (b_ipsets F) a bm i (mk o) = Ok (q_type (x_q x) =? v)) by reflexivity.
+  destruct vals as [|v2 vals'].
+  - rewrite Hoid. eexists. exists [mk oid]. split; [reflexivity|]. cbn [existsb]. rewrite orb_false_r.
+    apply emitted_single; [reflexivity|apply ext_refl|reflexivity|reflexivity|intros F _ _; apply Hev].
+  - rewrite or_id.
+    destruct (IH (append_rule b (mk (s_or sd))) neg upname oid) as [b' [seg [Hrun Hem]]]; [discriminate|assumption|].
+    exists b', (mk (s_or sd) :: seg). split; [exact Hrun|].
+    change (mk (s_or sd) :: seg) with ([mk (s_or sd)] ++ seg).
+    eapply emitted_app; [|exact Hem].
+    apply emitted_single; [reflexivity|apply ext_refl|reflexivity|reflexivity|intros F _ _; apply Hev].
+Qed.
+End Emit.
+
+(* --- names of upstreams and targets under well-formedness --- *)
+Definition is_resp_of (sd : side) : bool := match sd with Request => false | Response => true end.
+
+Lemma name2id_index ups n : wf_upstreams ups = true -> name2id ups n = index_of ups n 0.
+Proof.
+  intros H. unfold wf_upstreams in H. apply andb_true_iff in H. destruct H as [H _].
+  apply andb_true_iff in H. destruct H as [H _].
+  unfold name2id. rewrite name2id_go_spec by exact H. destruct (index_of ups n 0); reflexivity.
+Qed.
+
+Lemma reserved_false n : reserved n = false ->
+  String.eqb n "reject" = false /\ String.eqb n "asis" = false /\ String.eqb n "accept" = false /\
+  String.eqb n "<OR>" = false /\ String.eqb n "<AND>" = false.
+Proof.
+  unfold reserved. intros H. repeat (apply orb_false_iff in H; destruct H as [H ?]). auto.
+Qed.
+
+Lemma upstream_to_id_defined sd ups n i :
+  wf_upstreams ups = true -> reserved n = false -> index_of ups n 0 = Some i ->
+  upstream_to_id sd ups n = Ok i /\ i < 251.
+Proof.
+  intros Hw Hr Hi. destruct (reserved_false n Hr) as [H1 [H2 [H3 [H4 H5]]]].
+  split.
+  - unfold upstream_to_id. rewrite (name2id_index ups n Hw), Hi. destruct sd; now rewrite ?H1, ?H2, ?H3, ?H4, ?H5.
+  - apply index_of_bound in Hi. unfold wf_upstreams in Hw. apply andb_true_iff in Hw. destruct Hw as [_ Hl]. lia.
+Qed.
+
+Lemma target_resolved sd ups t :
+  wf_upstreams ups = true -> target_ok (is_resp_of sd) ups t = true ->
+  exists oid, upstream_to_id sd ups t = Ok oid /\ oid <= 253.
+Proof.
+  intros Hw Ht. unfold target_ok in Ht. apply orb_true_iff in Ht. destruct Ht as [Ht|Ht].
+  - destruct sd; cbn [is_resp_of] in Ht; apply orb_true_iff in Ht; destruct Ht as [Ht|Ht];
+      apply String.eqb_eq in Ht; subst t; eexists; (split; [reflexivity|]); vm_compute; discriminate.
+  - apply andb_true_iff in Ht. destruct Ht as [Hr Hd]. apply negb_true_iff in Hr.
+    unfold defined in Hd. destruct (index_of ups t 0) as [i|] eqn:Ei; [|discriminate].
+    destruct (upstream_to_id_defined sd ups t i Hw Hr Ei) as [H1 H2]. exists i. split; [exact H1|lia].
+Qed.
+
+Lemma eval_ipset ipsets a bm i m :
+  m_type m = MatchType_IpSet ->
+  eval_mset Response ipsets a bm i m =
+  match nth_error ipsets (N.to_nat (m_value m)) with
+  | Some ps => Ok (existsb (fun ip => existsb (fun p => px_covers p ip) ps) (a_ips a))
+  | None => Err E_PANIC_INDEX
+  end.
+Proof. intros H. unfold eval_mset. rewrite H. reflexivity. Qed.
+
+Lemma eval_upstream ipsets a bm i m :
+  m_type m = MatchType_Upstream -> eval_mset Response ipsets a bm i m = Ok (a_from a =? m_value m).
+Proof. intros H. unfold eval_mset. rewrite H. reflexivity. Qed.
+
+Lemma add_ip_emitted ups x bm b neg ps upname oid :
+  upstream_to_id Response ups upname = Ok oid ->
+  exists b' seg, add_ip ups b neg ps upname = Ok b' /\
+    emitted Response x bm b b' seg neg oid (existsb (fun ip => existsb (fun p => px_covers p ip) ps) (x_ips x)).
+Proof.
+  intros Hoid. unfold add_ip. rewrite Hoid. eexists. eexists. split; [reflexivity|].
+  apply (emitted_single Response x bm b {| b_rules := b_rules b; b_domsets := b_domsets b; b_ipsets := b_ipsets b ++ [ps] |});
+    [reflexivity| |reflexivity|reflexivity|].
+  - split; cbn; [eexists; reflexivity|exists []; now rewrite app_nil_r].
+  - intros F HF _. rewrite eval_ipset by reflexivity. cbn [m_value a_ips]. rewrite Nat2N.id.
+    destruct HF as [[t Ht] _]. cbn [append_rule b_ipsets] in Ht.
+    rewrite Ht, <- app_assoc, nth_error_app2 by lia. rewrite Nat.sub_diag. reflexivity.
+Qed.
+
+Lemma add_upstream_emitted ups x bm : wf_upstreams ups = true -> forall vals b neg upname oid,
+  vals <> [] -> upstream_to_id Response ups upname = Ok oid ->
+  Forall (fun n => reserved n = false /\ defined ups n = true) vals ->
+  exists b' seg, add_upstream ups b neg vals upname = Ok b' /\
+    emitted Response x bm b b' seg neg oid (existsb (fun n => src_is ups n (x_from x)) vals).
+Proof.
+  intros Hw. induction vals as [|v vals IH]; intros b neg upname oid Hne Hoid Hall; [congruence|].
+  inversion Hall as [|? ? [Hr Hd] Hall']; subst.
+  unfold defined in Hd. destruct (index_of ups v 0) as [i|] eqn:Ei; [|discriminate].
+  destruct (upstream_to_id_defined Response ups v i Hw Hr Ei) as [Hv Hlt].
+  cbn [add_upstream existsb].
+  set (mk := fun o => {| m_type := MatchType_Upstream; m_value := i; m_not := neg; m_up := o |}).
+  assert (Hev : forall o F k, eval_mset Response (b_ipsets F)
+                  {| a_qtype := q_type (x_q x); a_ips := x_ips x; a_from := from_index (x_from x) |} bm k (mk o)
+                = Ok (src_is ups v (x_from x))).
+  { intros o F k. rewrite eval_upstream by reflexivity. cbn [a_from m_value mk]. f_equal.
+    unfold src_is. rewrite Ei. destruct (x_from x) as [|j]; cbn [from_index].
+    - apply N.eqb_neq. unfold DnsRequestOutboundIndex_AsIs. lia.
+    - apply N.eqb_sym. }
+  destruct vals as [|v2 vals'].
+  - rewrite Hoid, Hv. eexists. exists [mk oid]. split; [reflexivity|]. cbn [existsb]. rewrite orb_false_r.
+    apply emitted_single; [reflexivity|apply ext_refl|reflexivity|reflexivity|intros F _ _; apply Hev].
+  - rewrite (or_id Response ups), Hv.
+    destruct (IH (append_rule b (mk (s_or Response))) neg upname oid) as [b' [seg [Hrun Hem]]]; [discriminate|assumption|assumption|].
+    exists b', (mk (s_or Response) :: seg). split; [exact Hrun|].
+    change (mk (s_or Response) :: seg) with ([mk (s_or Response)] ++ seg).
+    eapply emitted_app; [|exact Hem].
+    apply emitted_single; [reflexivity|apply ext_refl|reflexivity|reflexivity|intros F _ _; apply Hev].
+Qed.
+
+(* --- one function call (all its key groups) --- *)
+Lemma apply_qname_groups_emit sd ups x bm : forall gs b neg (last_func : bool) target oid,
+  gs <> [] ->
+  upstream_to_id sd ups (if last_func then target else "<AND>"%string) = Ok oid ->
+  exists b' seg, apply_qname_groups sd ups b neg gs last_func target = Ok b' /\
+    emitted sd x bm b b' seg neg oid (existsb (fun g => dom_holds x (fst g) (snd g)) gs).
+Proof.
+  induction gs as [|[key vals] gs IH]; intros b neg last_func target oid Hne Hoid; [congruence|].
+  cbn [apply_qname_groups existsb fst snd]. destruct gs as [|g2 gs'].
+  - cbn [override_name].
+    destruct (add_qname_emitted sd ups x bm b neg key vals _ oid Hoid) as [b' [Hrun Hem]].
+    rewrite Hrun. exists b'. eexists. split; [reflexivity|]. cbn [existsb]. rewrite orb_false_r. exact Hem.
+  - cbn [override_name].
+    destruct (add_qname_emitted sd ups x bm b neg key vals _ (s_or sd) (or_id sd ups)) as [b1 [Hrun1 Hem1]].
+    rewrite Hrun1.
+    destruct (IH b1 neg last_func target oid) as [b' [seg2 [Hrun2 Hem2]]]; [discriminate|exact Hoid|].
+    exists b'. eexists. split; [exact Hrun2|].
+    exact (emitted_app _ _ _ _ _ _ _ _ _ _ _ _ Hem1 Hem2).
+Qed.
+
+Lemma cond_emit sd ups x bm c b (last_func : bool) target oid :
+  wf_upstreams ups = true -> cond_ok (is_resp_of sd) ups c = true ->
+  upstream_to_id sd ups (if last_func then target else "<AND>"%string) = Ok oid ->
+  exists b' seg, apply_func sd ups b c last_func target = Ok b' /\
+    emitted sd x bm b b' seg (c_neg c) oid (body_holds ups (c_body c) x).
+Proof.
+  intros Hw Hc Hoid. unfold cond_ok in Hc. unfold apply_func. destruct (c_body c) as [ps|ts|ps|ns]; cbn [body_holds].
+  - assert (Hne : ps <> []) by (destruct ps; [discriminate|congruence]).
+    destruct (apply_qname_groups_emit sd ups x bm (group_by_key ps) b (c_neg c) last_func target oid
+                (group_by_key_nonempty ps Hne) Hoid) as [b' [seg [Hrun Hem]]].
+    exists b', seg. split; [exact Hrun|].
+    replace (existsb (fun p => domain_holds (fst p) (snd p) (norm_name (q_name (x_q x))) (q_regex_hits (x_q x))) ps)
+      with (existsb (fun g => dom_holds x (fst g) (snd g)) (group_by_key ps)); [exact Hem|].
+    unfold dom_holds.
+    exact (groups_existsb (fun k s => domain_holds k s (norm_name (q_name (x_q x))) (q_regex_hits (x_q x))) ps).
+  - apply andb_true_iff in Hc. destruct Hc as [Hne _].
+    assert (Hne' : ts <> []) by (destruct ts; [discriminate|congruence]).
+    destruct (add_qtype_emitted sd ups x bm ts b (c_neg c) _ oid Hne' Hoid) as [b' [seg [Hrun Hem]]].
+    exists b', seg. split; [|exact Hem]. destruct ts; [congruence|exact Hrun].
+  - apply andb_true_iff in Hc. destruct Hc as [Hc _]. apply andb_true_iff in Hc. destruct Hc as [Hr Hne].
+    destruct sd; [discriminate|].
+    assert (Hne' : ps <> []) by (destruct ps; [discriminate|congruence]).
+    destruct (add_ip_emitted ups x bm b (c_neg c) ps _ oid Hoid) as [b' [seg [Hrun Hem]]].
+    exists b', seg. split; [|exact Hem]. destruct ps; [congruence|exact Hrun].
+  - apply andb_true_iff in Hc. destruct Hc as [Hc Hall]. apply andb_true_iff in Hc. destruct Hc as [Hr Hne].
+    destruct sd; [discriminate|].
+    assert (Hne' : ns <> []) by (destruct ns; [discriminate|congruence]).
+    assert (Hall' : Forall (fun n => reserved n = false /\ defined ups n = true) ns).
+    { apply Forall_forall. intros n Hn. rewrite forallb_forall in Hall. specialize (Hall n Hn).
+      apply andb_true_iff in Hall. destruct Hall as [H1 H2]. split; [now apply negb_true_iff in H1|exact H2]. }
+    destruct (add_upstream_emitted ups x bm Hw ns b (c_neg c) _ oid Hne' Hoid Hall') as [b' [seg [Hrun Hem]]].
+    exists b', seg. split; [|exact Hem]. destruct ns; [congruence|exact Hrun].
+Qed.
+
+(* --- one rule --- *)
+Lemma tgt_and sd : tgt_of_id sd (s_and sd) = RuleScan.TAnd.
+Proof. destruct sd; reflexivity. Qed.
+Lemma tgt_out sd oid : oid <= 253 -> tgt_of_id sd oid = RuleScan.TOut oid false.
+Proof.
+  intros H. unfold tgt_of_id.
+  replace (oid =? s_or sd) with false by (symmetry; apply N.eqb_neq; destruct sd; unfold s_or, DnsRequestOutboundIndex_LogicalOr, DnsResponseOutboundIndex_LogicalOr; lia).
+  replace (oid =? s_and sd) with false by (symmetry; apply N.eqb_neq; destruct sd; unfold s_and, DnsRequestOutboundIndex_LogicalAnd, DnsResponseOutboundIndex_LogicalAnd; lia).
+  reflexivity.
+Qed.
+Lemma s_and_small sd : s_and sd < 256.
+Proof. destruct sd; reflexivity. Qed.
+
+Lemma lower_conds_cons t (c : RuleScan.cond atom) acs : acs <> [] ->
+  RuleScan.lower_conds atom R t (c :: acs)
+  = RuleScan.lower_atoms atom R (RuleScan.cneg c) RuleScan.TAnd (RuleScan.catoms c) ++ RuleScan.lower_conds atom R t acs.
+Proof. destruct acs; [congruence|reflexivity]. Qed.
+
+Lemma apply_funcs_emit sd ups x bm : wf_upstreams ups = true -> forall cs b target oid,
+  cs <> [] -> Forall (fun c => cond_ok (is_resp_of sd) ups c = true) cs ->
+  upstream_to_id sd ups target = Ok oid -> oid <= 253 ->
+  exists b' seg acs, apply_funcs sd ups b cs target = Ok b' /\ b_rules b' = b_rules b ++ seg /\ ext b b' /\
+    abs_arr sd (N.of_nat (List.length (b_rules b))) seg
+      = RuleScan.lower_conds atom R (RuleScan.ROut oid false) acs /\
+    acs <> [] /\ Forall (RuleScan.wf_cond atom) acs /\ Forall (fun m => m_up m < 256) seg /\
+    forall F, ext b' F -> dom_agree x bm F ->
+      Forall (fine sd x bm F) (tag (N.of_nat (List.length (b_rules b))) seg) /\
+      forallb (RuleScan.cond_holds atom (semx sd x bm F)) acs = forallb (fun c => cond_holds ups c x) cs.
+Proof.
+  intros Hw. induction cs as [|c cs IH]; intros b target oid Hne Hok Hoid Hle; [congruence|].
+  inversion Hok as [|? ? Hc Hok']; subst. cbn [apply_funcs]. destruct cs as [|c2 cs'].
+  - destruct (cond_emit sd ups x bm c b true target oid Hw Hc Hoid) as [b' [seg [Hrun [Hr [He [Hch Hs]]]]]].
+    rewrite Hrun. exists b', seg, [RuleScan.C (c_neg c) (tag (N.of_nat (List.length (b_rules b))) seg)].
+    split; [reflexivity|]. split; [exact Hr|]. split; [exact He|].
+    split. { rewrite (chain_lower sd _ _ _ Hch), (tgt_out sd oid Hle). reflexivity. }
+    split; [discriminate|].
+    split. { constructor; [|constructor]. unfold RuleScan.wf_cond. cbn. apply tag_nonempty. eapply chain_nonempty; eauto. }
+    split. { eapply chain_up_small; eauto. lia. }
+    intros F HF Hd. destruct (Hs F HF Hd) as [Hf Hx]. split; [exact Hf|].
+    cbn [forallb]. unfold RuleScan.cond_holds. cbn [RuleScan.cneg RuleScan.catoms]. rewrite Hx.
+    rewrite !andb_true_r. reflexivity.
+  - destruct (cond_emit sd ups x bm c b false target (s_and sd) Hw Hc (and_id sd ups)) as [b1 [seg1 [Hrun1 [Hr1 [He1 [Hch1 Hs1]]]]]].
+    rewrite Hrun1.
+    destruct (IH b1 target oid) as [b' [seg2 [acs2 [Hrun2 [Hr2 [He2 [Hl2 [Hne2 [Hwf2 [Ho2 Hs2]]]]]]]]]];
+      [discriminate|exact Hok'|exact Hoid|exact Hle|].
+    exists b', (seg1 ++ seg2), (RuleScan.C (c_neg c) (tag (N.of_nat (List.length (b_rules b))) seg1) :: acs2).
+    split; [exact Hrun2|]. split; [now rewrite Hr2, Hr1, app_assoc|]. split; [now apply (ext_trans b b1 b')|].
+    rewrite Hr1, app_length, Nat2N.inj_add in Hl2, Hs2.
+    split.
+    { rewrite abs_arr_app, Hl2, lower_conds_cons by exact Hne2. cbn [RuleScan.cneg RuleScan.catoms]. f_equal.
+      rewrite (chain_lower sd _ _ _ Hch1). now rewrite tgt_and. }
+    split; [discriminate|].
+    split. { constructor; [|exact Hwf2]. unfold RuleScan.wf_cond. cbn. apply tag_nonempty. eapply chain_nonempty; eauto. }
+    split. { apply Forall_app. split; [|exact Ho2]. eapply chain_up_small; eauto. apply s_and_small. }
+    intros F HF Hd. destruct (Hs1 F (ext_trans _ _ _ He2 HF) Hd) as [Hf1 Hx1]. destruct (Hs2 F HF Hd) as [Hf2 Hx2].
+    split. { rewrite tag_app. apply Forall_app. now split. }
+    cbn [forallb]. rewrite Hx2. f_equal.
+    unfold RuleScan.cond_holds. cbn [RuleScan.cneg RuleScan.catoms]. rewrite Hx1. reflexivity.
+Qed.
+
+(* --- all rules --- *)
+Definition tid (sd : side) (ups : list string) (t : string) : N :=
+  match upstream_to_id sd ups t with Ok i => i | Err _ => 0 end.
+
+Fixpoint drk (sd : side) (ups : list string) (x : ctx) (rs : list rule) (k : option (R * bool)) : option (R * bool) :=
+  match rs with
+  | [] => k
+  | r :: rest => if rule_holds ups r x then Some (tid sd ups (r_target r), false) else drk sd ups x rest k
+  end.
+
+Lemma apply_rules_emit sd ups x bm : wf_upstreams ups = true -> forall rs b,
+  Forall (fun r => rule_ok (is_resp_of sd) ups r = true) rs ->
+  exists b' seg ars, apply_rules sd ups b rs = Ok b' /\ b_rules b' = b_rules b ++ seg /\ ext b b' /\
+    abs_arr sd (N.of_nat (List.length (b_rules b))) seg = RuleScan.lower atom R ars /\
+    Forall (RuleScan.wf_rule atom R) ars /\ Forall (fun m => m_up m < 256) seg /\
+    forall F, ext b' F -> dom_agree x bm F ->
+      Forall (fine sd x bm F) (tag (N.of_nat (List.length (b_rules b))) seg) /\
+      forall more, RuleScan.decide atom R (semx sd x bm F) (ars ++ more) false
+                   = drk sd ups x rs (RuleScan.decide atom R (semx sd x bm F) more false).
+Proof.
+  intros Hw. induction rs as [|r rs IH]; intros b Hok.
+  - exists b, [], []. cbn [apply_rules]. rewrite app_nil_r.
+    repeat split; auto using ext_refl; try apply ext_refl; constructor.
+  - inversion Hok as [|? ? Hr Hok']; subst.
+    unfold rule_ok in Hr. apply andb_true_iff in Hr. destruct Hr as [Hr Hout]. apply andb_true_iff in Hr. destruct Hr as [Hne Hconds].
+    assert (Hne' : r_conds r <> []) by (destruct (r_conds r); [discriminate|congruence]).
+    assert (Hconds' : Forall (fun c => cond_ok (is_resp_of sd) ups c = true) (r_conds r)) by (apply Forall_forall; now rewrite forallb_forall in Hconds).
+    destruct (target_resolved sd ups (r_target r) Hw Hout) as [oid [Hoid Hle]].
+    destruct (apply_funcs_emit sd ups x bm Hw (r_conds r) b (r_target r) oid Hne' Hconds' Hoid Hle)
+      as [b1 [seg1 [acs [Hrun1 [Hr1 [He1 [Hl1 [Hne1 [Hwf1 [Ho1 Hs1]]]]]]]]]].
+    destruct (IH b1 Hok') as [b' [seg2 [ars2 [Hrun2 [Hr2 [He2 [Hl2 [Hwf2 [Ho2 Hs2]]]]]]]]].
+    exists b', (seg1 ++ seg2), (RuleScan.Rl acs (RuleScan.ROut oid false) :: ars2).
+    cbn [apply_rules]. rewrite Hrun1.
+    split; [exact Hrun2|]. split; [now rewrite Hr2, Hr1, app_assoc|]. split; [now apply (ext_trans b b1 b')|].
+    rewrite Hr1, app_length, Nat2N.inj_add in Hl2, Hs2.
+    split. { rewrite abs_arr_app. cbn [RuleScan.lower flat_map]. unfold RuleScan.lower_rule. cbn [RuleScan.rt RuleScan.rconds].
+             rewrite <- Hl1. f_equal. exact Hl2. }
+    split. { constructor; [|exact Hwf2]. split; cbn; assumption. }
+    split. { apply Forall_app. now split. }
+    intros F HF Hd. destruct (Hs1 F (ext_trans _ _ _ He2 HF) Hd) as [Hf1 Hx1]. destruct (Hs2 F HF Hd) as [Hf2 Hx2].
+    split. { rewrite tag_app. apply Forall_app. now split. }
+    intros more. cbn [app RuleScan.decide drk]. unfold RuleScan.rule_holds at 1. cbn [RuleScan.rconds RuleScan.rt].
+    rewrite Hx1. unfold rule_holds. destruct (forallb (fun c => cond_holds ups c x) (r_conds r)); [|apply Hx2].
+    unfold tid. rewrite Hoid. reflexivity.
+Qed.
+
+Lemma drk_spec sd ups x fb : forall rs,
+  drk sd ups x rs (Some (tid sd ups fb, false)) = Some (tid sd ups (first_target ups rs fb x), false).
+Proof.
+  induction rs as [|r rs IH]; cbn [drk first_target]; [reflexivity|].
+  destruct (rule_holds ups r x); [reflexivity|apply IH].
+Qed.
+
+Lemma first_target_ok sd ups x fb : forall rs,
+  Forall (fun r => rule_ok (is_resp_of sd) ups r = true) rs -> target_ok (is_resp_of sd) ups fb = true ->
+  target_ok (is_resp_of sd) ups (first_target ups rs fb x) = true.
+Proof.
+  induction rs as [|r rs IH]; intros Hok Hfb; cbn [first_target]; [exact Hfb|].
+  inversion Hok as [|? ? Hr Hok']; subst. destruct (rule_holds ups r x); [|now apply IH].
+  unfold rule_ok in Hr. apply andb_true_iff in Hr. now destruct Hr.
+Qed.
+
+(* ------------------------------------------------------------------------------------------------ *)
+(* Part 4: the refinement theorem (both matchers)                                                     *)
+(* ------------------------------------------------------------------------------------------------ *)
+Definition args_of (x : ctx) : margs :=
+  {| a_qtype := q_type (x_q x); a_ips := x_ips x; a_from := from_index (x_from x) |}.
+
+Lemma refinement_core sd ups rt x bm :
+  wf_upstreams ups = true -> routing_ok (is_resp_of sd) ups rt = true ->
+  exists b, build_matcher sd ups rt = Ok b /\
+    (dom_agree x bm b ->
+     match_loop sd (b_ipsets b) (args_of x) bm (b_rules b) 0 false false
+     = upstream_to_id sd ups (first_target ups (rt_rules rt) (rt_fallback rt) x)).
+Proof.
+  intros Hw Hrt. unfold routing_ok in Hrt. apply andb_true_iff in Hrt. destruct Hrt as [Hrules Hfb].
+  assert (Hrules' : Forall (fun r => rule_ok (is_resp_of sd) ups r = true) (rt_rules rt)) by (apply Forall_forall; now rewrite forallb_forall in Hrules).
+  destruct (apply_rules_emit sd ups x bm Hw (rt_rules rt) empty_builder Hrules')
+    as [b' [seg [ars [Hrun [Hr [He [Hl [Hwf [Ho Hs]]]]]]]]].
+  cbn [empty_builder b_rules app List.length] in Hr, Hl, Hs. change (N.of_nat 0) with 0 in Hl, Hs.
+  destruct (target_resolved sd ups (rt_fallback rt) Hw Hfb) as [id [Hid Hle]].
+  set (fbm := {| m_type := MatchType_Fallback; m_value := 0; m_not := false; m_up := id |}).
+  exists (append_rule b' fbm).
+  split.
+  { unfold build_matcher. rewrite Hrun. unfold add_fallback. rewrite Hid. fold fbm.
+    cbn [append_rule b_rules]. rewrite map_app. cbn [map]. rewrite last_last. reflexivity. }
+  intros Hd. cbn [append_rule b_rules b_ipsets].
+  set (F := append_rule b' fbm) in *.
+  assert (HF : ext b' F) by apply append_rule_ext.
+  destruct (Hs F HF Hd) as [Hfine Hdec].
+  set (n := N.of_nat (List.length seg)).
+  set (fr := RuleScan.Rl [RuleScan.C false [(n, fbm)]] (RuleScan.ROut id false) : RuleScan.rule atom R).
+  assert (Harr : abs_arr sd 0 (b_rules b' ++ [fbm]) = RuleScan.lower atom R (ars ++ [fr])).
+  { rewrite Hr, abs_arr_app, Hl. unfold RuleScan.lower. rewrite flat_map_app. f_equal.
+    cbn. unfold abs_atom, tgt_of. cbn [snd fbm m_not m_up]. rewrite (tgt_out sd id Hle). try rewrite N.add_0_l. fold n. reflexivity. }
+  assert (Hfall : eval_mset sd (b_ipsets b') (args_of x) bm n fbm = Ok true) by (destruct sd; reflexivity).
+  change (b_ipsets b') with (b_ipsets F) in *.
+  rewrite (match_loop_scan sd (b_ipsets F) (args_of x) bm).
+  2:{ intros k m Hk. rewrite N.add_0_l. rewrite Hr in Hk.
+      destruct (Nat.ltb k (List.length seg)) eqn:E.
+      - apply Nat.ltb_lt in E. rewrite nth_error_app1 in Hk by exact E. split.
+        + rewrite Forall_forall in Ho. apply Ho. eapply nth_error_In; eauto.
+        + rewrite Forall_forall in Hfine.
+          pose proof (tag_in seg 0 k m Hk) as Hin.
+          rewrite N.add_0_l in Hin. destruct (Hfine _ Hin) as [g Hg']. cbn [fst snd] in Hg'. exists g. exact Hg'.
+      - apply Nat.ltb_ge in E. rewrite nth_error_app2 in Hk by exact E.
+        destruct (k - List.length seg)%nat as [|k'] eqn:Ek; cbn in Hk; [|destruct k'; discriminate].
+        inversion Hk; subst m. split; [cbn; lia|].
+        replace (N.of_nat k) with n by (unfold n; lia). exists true. exact Hfall. }
+  rewrite Harr.
+  rewrite (RuleScan.scan_lower atom R (semx sd x bm F)).
+  - rewrite Hdec. unfold fr. cbn [RuleScan.decide]. unfold RuleScan.rule_holds, RuleScan.cond_holds.
+    cbn [RuleScan.rconds RuleScan.rt forallb RuleScan.cneg RuleScan.catoms existsb].
+    unfold semx at 1. cbn [fst snd]. fold (args_of x). rewrite Hfall. cbn [unres orb xorb andb].
+    replace id with (tid sd ups (rt_fallback rt)) by (unfold tid; now rewrite Hid).
+    rewrite drk_spec. cbn [res_of].
+    destruct (target_resolved sd ups _ Hw (first_target_ok sd ups x (rt_fallback rt) (rt_rules rt) Hrules' Hfb)) as [oid [Hoid _]].
+    unfold tid. now rewrite Hoid.
+  - apply Forall_app. split; [exact Hwf|]. constructor; [|constructor]. split; [discriminate|].
+    constructor; [|constructor]. discriminate.
+  - intros k m Hk. rewrite <- Harr in Hk. unfold abs_arr in Hk. rewrite nth_error_map in Hk.
+    destruct (nth_error (tag 0 (b_rules b' ++ [fbm])) k) as [y|] eqn:Ex; [|discriminate]. cbn in Hk. inversion Hk; subst m.
+    cbn [RuleScan.ma abs_atom]. destruct (tag_nth _ _ _ _ Ex) as [Hfst _]. unfold evx, semx. rewrite Hfst. reflexivity.
+Qed.
+
+(* --- the two Select functions --- *)
+Definition oracle_agrees (b : builder) (bm : list N) (q : question) : Prop :=
+  forall ds, In ds (b_domsets b) ->
+    bm_read bm (ds_index ds)
+    = Some (existsb (fun s => domain_holds (ds_key ds) s (norm_name (q_name q)) (q_regex_hits q)) (ds_domains ds)).
+
+Lemma wf_config_parts cfg : wf_config cfg = true ->
+  wf_upstreams (cf_upstreams cfg) = true /\ routing_ok false (cf_upstreams cfg) (cf_request cfg) = true /\
+  routing_ok true (cf_upstreams cfg) (cf_response cfg) = true.
+Proof. unfold wf_config. intros H. apply andb_true_iff in H. destruct H as [H H3]. apply andb_true_iff in H. tauto. Qed.
+
+Lemma dns_new_total cfg : wf_config cfg = true ->
+  exists rq rp, build_matcher Request (cf_upstreams cfg) (cf_request cfg) = Ok rq /\
+                build_matcher Response (cf_upstreams cfg) (cf_response cfg) = Ok rp /\
+                dns_new cfg = Ok {| d_ups := cf_upstreams cfg; d_req := rq; d_resp := rp |}.
+Proof.
+  intros Hwf. destruct (wf_config_parts cfg Hwf) as [Hw [Hq Hp]].
+  set (x0 := {| x_q := {| q_name := ""; q_type := 0; q_regex_hits := [] |}; x_ips := []; x_from := SAsIs |}).
+  destruct (refinement_core Request _ _ x0 None Hw Hq) as [rq [Hrq _]].
+  destruct (refinement_core Response _ _ x0 None Hw Hp) as [rp [Hrp _]].
+  exists rq, rp. split; [exact Hrq|]. split; [exact Hrp|].
+  unfold dns_new. rewrite Hrq, Hrp.
+  replace (DnsRequestOutboundIndex_UserDefinedMax <? N.of_nat (List.length (cf_upstreams cfg))) with false; [reflexivity|].
+  unfold wf_upstreams in Hw. apply andb_true_iff in Hw. destruct Hw as [_ Hl].
+  unfold DnsRequestOutboundIndex_UserDefinedMax. lia.
+Qed.
+
+Lemma domain_holds_empty k s hits : domain_holds k s "" hits = false.
+Proof. reflexivity. Qed.
+
+Lemma verdict_req ups t :
+  wf_upstreams ups = true -> target_ok false ups t = true ->
+  exists oid v, upstream_to_id Request ups t = Ok oid /\ req_verdict_of ups t = Some v /\
+    (if (oid =? DnsRequestOutboundIndex_AsIs) || (oid =? DnsRequestOutboundIndex_Reject)
+     then Ok (if oid =? DnsRequestOutboundIndex_AsIs then QAsIs else QReject)
+     else if N.of_nat (List.length ups) <=? oid then Err E_BAD_INDEX else Ok (QUp oid)) = Ok v.
+Proof.
+  intros Hw Ht. unfold target_ok in Ht. apply orb_true_iff in Ht. destruct Ht as [Ht|Ht].
+  - apply orb_true_iff in Ht. destruct Ht as [Ht|Ht]; apply String.eqb_eq in Ht; subst t.
+    + exists DnsRequestOutboundIndex_Reject, QReject. repeat split.
+    + exists DnsRequestOutboundIndex_AsIs, QAsIs. repeat split.
+  - apply andb_true_iff in Ht. destruct Ht as [Hr Hd]. apply negb_true_iff in Hr.
+    unfold defined in Hd. destruct (index_of ups t 0) as [i|] eqn:Ei; [|discriminate].
+    destruct (upstream_to_id_defined Request ups t i Hw Hr Ei) as [H1 H2].
+    destruct (reserved_false t Hr) as [E1 [E2 _]].
+    exists i, (QUp i). split; [exact H1|]. split.
+    + unfold req_verdict_of. now rewrite E1, E2, Ei.
+    + apply index_of_bound in Ei.
+      replace (i =? DnsRequestOutboundIndex_AsIs) with false by (symmetry; apply N.eqb_neq; unfold DnsRequestOutboundIndex_AsIs; lia).
+      replace (i =? DnsRequestOutboundIndex_Reject) with false by (symmetry; apply N.eqb_neq; unfold DnsRequestOutboundIndex_Reject; lia).
+      cbn [orb]. replace (N.of_nat (List.length ups) <=? i) with false by lia. reflexivity.
+Qed.
+
+Lemma verdict_resp ups t :
+  wf_upstreams ups = true -> target_ok true ups t = true ->
+  exists oid v, upstream_to_id Response ups t = Ok oid /\ resp_verdict_of ups t = Some v /\
+    (if negb (is_reserved oid) then (if N.of_nat (List.length ups) <=? oid then Err E_BAD_INDEX else Ok (PUp oid))
+     else if oid =? DnsResponseOutboundIndex_Accept then Ok PAccept
+     else if oid =? DnsResponseOutboundIndex_Reject then Ok PReject else Err E_BAD_INDEX) = Ok v.
+Proof.
+  intros Hw Ht. unfold target_ok in Ht. apply orb_true_iff in Ht. destruct Ht as [Ht|Ht].
+  - apply orb_true_iff in Ht. destruct Ht as [Ht|Ht]; apply String.eqb_eq in Ht; subst t.
+    + exists DnsResponseOutboundIndex_Accept, PAccept. repeat split.
+    + exists DnsResponseOutboundIndex_Reject, PReject. repeat split.
+  - apply andb_true_iff in Ht. destruct Ht as [Hr Hd]. apply negb_true_iff in Hr.
+    unfold defined in Hd. destruct (index_of ups t 0) as [i|] eqn:Ei; [|discriminate].
+    destruct (upstream_to_id_defined Response ups t i Hw Hr Ei) as [H1 H2].
+    destruct (reserved_false t Hr) as [E1 [_ [E3 _]]].
+    exists i, (PUp i). split; [exact H1|]. split.
+    + unfold resp_verdict_of. now rewrite E3, E1, Ei.
+    + apply index_of_bound in Ei. unfold is_reserved.
+      replace (i =? DnsResponseOutboundIndex_Accept) with false by (symmetry; apply N.eqb_neq; unfold DnsResponseOutboundIndex_Accept; lia).
+      replace (i =? DnsResponseOutboundIndex_Reject) with false by (symmetry; apply N.eqb_neq; unfold DnsResponseOutboundIndex_Reject; lia).
+      replace (i =? DnsResponseOutboundIndex_LogicalOr) with false by (symmetry; apply N.eqb_neq; unfold DnsResponseOutboundIndex_LogicalOr; lia).
+      replace (i =? DnsResponseOutboundIndex_LogicalAnd) with false by (symmetry; apply N.eqb_neq; unfold DnsResponseOutboundIndex_LogicalAnd; lia).
+      cbn [orb negb]. replace (N.of_nat (List.length ups) <=? i) with false by lia. reflexivity.
+Qed.
+
+Lemma routing_ok_first_target sd ups rt x :
+  routing_ok (is_resp_of sd) ups rt = true ->
+  target_ok (is_resp_of sd) ups (first_target ups (rt_rules rt) (rt_fallback rt) x) = true.
+Proof.
+  intros Hrt. unfold routing_ok in Hrt. apply andb_true_iff in Hrt. destruct Hrt as [Hrules Hfb].
+  apply first_target_ok; [|exact Hfb]. apply Forall_forall. now rewrite forallb_forall in Hrules.
+Qed.
+
+Lemma request_select_refines cfg d bm q :
+  wf_config cfg = true -> dns_new cfg = Ok d ->
+  (q_name q <> ""%string -> oracle_agrees (d_req d) bm q) ->
+  exists v, request_route cfg q = Some v /\ request_select d bm q = Ok v.
+Proof.
+  intros Hwf Hd Hor. destruct (wf_config_parts cfg Hwf) as [Hw [Hq Hp]].
+  destruct (dns_new_total cfg Hwf) as [rq [rp [Hrq [Hrp Hnew]]]]. rewrite Hnew in Hd. inversion Hd; subst d. clear Hd.
+  cbn [d_req] in Hor.
+  set (x := {| x_q := q; x_ips := []; x_from := SAsIs |}).
+  set (bmo := if String.eqb (q_name q) "" then None else Some bm).
+  destruct (refinement_core Request _ _ x bmo Hw Hq) as [rq' [Hrq' Href]]. rewrite Hrq in Hrq'. inversion Hrq'; subst rq'. clear Hrq'.
+  assert (Hagree : dom_agree x bmo rq).
+  { intros ds Hin. unfold bmr, dom_holds, bmo. cbn [x x_q]. destruct (String.eqb (q_name q) "") eqn:E.
+    - apply String.eqb_eq in E. rewrite E. f_equal. symmetry. induction (ds_domains ds); [reflexivity|assumption].
+    - apply Hor; [|exact Hin]. intros E'. rewrite E' in E. discriminate. }
+  specialize (Href Hagree).
+  destruct (verdict_req _ _ Hw (routing_ok_first_target Request _ _ x Hq)) as [oid [v [Hoid [Hv Hpost]]]].
+  exists v. split; [exact Hv|].
+  unfold request_select. cbn [d_req d_ups]. fold bmo.
+  change {| a_qtype := q_type q; a_ips := []; a_from := from_index SAsIs |} with (args_of x).
+  rewrite Href, Hoid. exact Hpost.
+Qed.
+
+Lemma response_select_refines cfg d bm q ans from :
+  wf_config cfg = true -> dns_new cfg = Ok d -> q_name q <> ""%string ->
+  oracle_agrees (d_resp d) bm q ->
+  exists v, response_route cfg q ans from = Some v /\ response_select d bm q ans from = Ok v.
+Proof.
+  intros Hwf Hd Hne Hor. destruct (wf_config_parts cfg Hwf) as [Hw [Hq Hp]].
+  destruct (dns_new_total cfg Hwf) as [rq [rp [Hrq [Hrp Hnew]]]]. rewrite Hnew in Hd. inversion Hd; subst d. clear Hd.
+  cbn [d_resp] in Hor.
+  set (x := {| x_q := q; x_ips := answer_ips ans; x_from := from |}).
+  destruct (refinement_core Response _ _ x (Some bm) Hw Hp) as [rp' [Hrp' Href]]. rewrite Hrp in Hrp'. inversion Hrp'; subst rp'. clear Hrp'.
+  assert (Hagree : dom_agree x (Some bm) rp) by (intros ds Hin; apply Hor; exact Hin).
+  specialize (Href Hagree).
+  destruct (verdict_resp _ _ Hw (routing_ok_first_target Response _ _ x Hp)) as [oid [v [Hoid [Hv Hpost]]]].
+  exists v. split; [exact Hv|].
+  unfold response_select. cbn [d_resp d_ups].
+  replace (String.eqb (q_name q) "") with false by (symmetry; apply String.eqb_neq; exact Hne).
+  change {| a_qtype := q_type q; a_ips := answer_ips ans; a_from := from_index from |} with (args_of x).
+  rewrite Href, Hoid. exact Hpost.
+Qed.
+
+(* ------------------------------------------------------------------------------------------------ *)
+(* Part 5: the controller follows the spec                                                            *)
+(* ------------------------------------------------------------------------------------------------ *)
+Definition res_of_outcome (o : outcome) : res (list rr) :=
+  match o with
+  | Replied ans => Ok ans
+  | TooDeep => Err E_TOO_DEEP
+  | UpstreamFailed => Err E_UPSTREAM_FAIL
+  | RouteError => Err 0
+  end.
+
+Lemma dial_send_refines cfg d bm q a :
+  wf_config cfg = true -> dns_new cfg = Ok d -> q_name q <> ""%string -> oracle_agrees (d_resp d) bm q ->
+  forall fuel depth s, (depth <= max_depth)%nat -> (max_depth - depth < fuel)%nat ->
+  dial_send fuel d bm q a (N.of_nat depth) s
+  = (res_of_outcome (fst (chase cfg q a (max_depth - depth) depth s)), snd (chase cfg q a (max_depth - depth) depth s)).
+Proof.
+  intros Hwf Hd Hne Hor. induction fuel as [|f IH]; intros depth s Hle Hf; [lia|].
+  cbn [dial_send]. destruct (MaxDnsLookupDepth <=? N.of_nat depth) eqn:Edeep.
+  - assert (depth = max_depth) by (unfold max_depth in *; lia). subst depth.
+    replace (max_depth - max_depth)%nat with 0%nat by lia. reflexivity.
+  - assert (Hlt : (depth < max_depth)%nat) by (unfold max_depth in *; lia).
+    replace (max_depth - depth)%nat with (S (max_depth - S depth)) by lia.
+    cbn [chase]. rewrite Nat2N.id. destruct (a s depth) as [ans|]; [|reflexivity].
+    destruct (response_select_refines cfg d bm q ans s Hwf Hd Hne Hor) as [v [Hv Hs]].
+    rewrite Hs, Hv. destruct v as [| |j]; [reflexivity|reflexivity|].
+    replace (N.of_nat depth + 1) with (N.of_nat (S depth)) by lia.
+    rewrite IH by lia. destruct (chase cfg q a (max_depth - S depth) (S depth) (SUp j)) as [o l]. reflexivity.
+Qed.
+
+Lemma handle_refines cfg d bmq bmr c q a fuel :
+  wf_config cfg = true -> dns_new cfg = Ok d -> q_name q <> ""%string ->
+  oracle_agrees (d_req d) bmq q -> oracle_agrees (d_resp d) bmr q -> (max_depth < fuel)%nat ->
+  handle fuel d bmq bmr c q a
+  = (let '(o, l, c') := answer_question max_depth cfg c q a in (res_of_outcome o, l, c')).
+Proof.
+  intros Hwf Hd Hne Horq Horr Hf.
+  destruct (request_select_refines cfg d bmq q Hwf Hd (fun _ => Horq)) as [v [Hv Hs]].
+  unfold handle, answer_question. rewrite Hs, Hv.
+  assert (Hds : forall s, dial_send fuel d bmr q a 0 s
+                = (res_of_outcome (fst (chase cfg q a max_depth 0 s)), snd (chase cfg q a max_depth 0 s))).
+  { intros s. pose proof (dial_send_refines cfg d bmr q a Hwf Hd Hne Horr fuel 0%nat s) as H.
+    rewrite Nat.sub_0_r in H. change (N.of_nat 0) with 0 in H. apply H; lia. }
+  destruct v as [| |i].
+  - reflexivity.
+  - destruct (cache_lookup c q (src_code SAsIs)); [reflexivity|]. rewrite Hds.
+    destruct (chase cfg q a max_depth 0 SAsIs) as [o l]. destruct o; reflexivity.
+  - destruct (cache_lookup c q (src_code (SUp i))); [reflexivity|]. rewrite Hds.
+    destruct (chase cfg q a max_depth 0 (SUp i)) as [o l]. destruct o; reflexivity.
+Qed.
+
+Lemma C07_reject_ignores_cache_proof cfg d bmq bmr c q a fuel :
+  wf_config cfg = true -> dns_new cfg = Ok d ->
+  (q_name q <> ""%string -> oracle_agrees (d_req d) bmq q) ->
+  request_route cfg q = Some QReject ->
+  handle fuel d bmq bmr c q a = (Ok [], [], cache_remove_family c q) /\
+  (forall scope, cache_lookup (cache_remove_family c q) q scope = None) /\
+  (forall e, In e (cache_remove_family c q) <-> In e c /\ same_family q e = false).
+Proof.
+  intros Hwf Hd Hor Hrej. destruct (request_select_refines cfg d bmq q Hwf Hd Hor) as [v [Hv Hs]].
+  rewrite Hrej in Hv. inversion Hv; subst v. now apply C07_reject_model.
+Qed.
+
+(* accept / empty / re-ask, one step, read off the spec *)
+Lemma C07_accept_reject_reask_proof cfg q a n k s ans :
+  a s k = UAnswer ans ->
+  match response_route cfg q ans s with
+  | Some PAccept => chase cfg q a (S n) k s = (Replied ans, [s])
+  | Some PReject => chase cfg q a (S n) k s = (Replied [], [s])
+  | Some (PUp j) => chase cfg q a (S n) k s
+                    = (fst (chase cfg q a n (S k) (SUp j)), s :: snd (chase cfg q a n (S k) (SUp j)))
+  | None => chase cfg q a (S n) k s = (RouteError, [s])
+  end.
+Proof.
+  intros Ha. cbn [chase]. rewrite Ha. destruct (response_route cfg q ans s) as [[| |j]|]; try reflexivity.
+  destruct (chase cfg q a n (S k) (SUp j)); reflexivity.
+Qed.
+
+(* --- non-vacuity --- *)
+Definition ex_cfg : config :=
+  {| cf_upstreams := ["u0"; "u1"]%string;
+     cf_request := {| rt_rules := [ {| r_conds := [ {| c_neg := false; c_body := BQName [(DSuffix, "example.com"); (DFull, "a.b"); (DSuffix, "org")]%string |};
+                                                    {| c_neg := true; c_body := BQType [28; 65] |} ];
+                                       r_target := "u1" |};
+                                    {| r_conds := [ {| c_neg := false; c_body := BQType [28] |} ]; r_target := "reject" |} ];
+                      rt_fallback := "asis" |};
+     cf_response := {| rt_rules := [ {| r_conds := [ {| c_neg := false; c_body := BUpstream ["u0"]%string |} ]; r_target := "u1" |};
+                                     {| r_conds := [ {| c_neg := false; c_body := BUpstream ["u1"]%string |};
+                                                     {| c_neg := false; c_body := BIp [ {| px_v4 := true; px_addr := 0xffff0a000000; px_bits := 8 |} ] |} ];
+                                        r_target := "u0" |};
+                                     {| r_conds := [ {| c_neg := true; c_body := BIp [ {| px_v4 := false; px_addr := 0; px_bits := 1 |} ] |} ]; r_target := "reject" |} ];
+                       rt_fallback := "accept" |} |}.
+Definition ex_q (t : N) : question := {| q_name := "WWW.Example.COM."; q_type := t; q_regex_hits := [] |}.
+Definition ex_answers : answers := fun s k => UAnswer [RA 0x0a010203].
+
+Lemma C07_nonvacuous_proof :
+  wf_config ex_cfg = true /\
+  request_route ex_cfg (ex_q 1) = Some (QUp 1) /\
+  request_route ex_cfg (ex_q 28) = Some QReject /\
+  request_route ex_cfg {| q_name := "x.net"; q_type := 1; q_regex_hits := [] |} = Some QAsIs /\
+  chase ex_cfg (ex_q 1) ex_answers 3 0 (SUp 1) = (TooDeep, [SUp 1; SUp 0; SUp 1]) /\
+  chase ex_cfg (ex_q 1) (fun s k => UAnswer [RA 0x08080808]) 3 0 (SUp 0) = (Replied [RA 0x08080808], [SUp 0; SUp 1]) /\
+  chase ex_cfg (ex_q 1) (fun s k => UAnswer [RAAAA (2 ^ 127)]) 3 0 SAsIs = (Replied [], [SAsIs]) /\
+  (exists d, dns_new ex_cfg = Ok d /\ List.length (b_rules (d_req d)) = 6%nat /\ List.length (b_rules (d_resp d)) = 5%nat /\
+     handle 10 d (repeat 0 32) (repeat 0 32)
+            [{| ce_name := "www.example.com"; ce_type := 28; ce_scope := 1; ce_answer := [RAAAA 1] |}] (ex_q 28) ex_answers
+     = (Ok [], [], [])).
+Proof.
+  repeat split; try (vm_compute; reflexivity).
+  eexists. split; [vm_compute; reflexivity|]. repeat split; vm_compute; reflexivity.
+Qed.
